@@ -17,6 +17,8 @@ CLAIMED = {
          "Seeded exploration; each transaction of each accepted block is applied alone with the real applyTxOnState and its effect on every known address is compared with the signer and the named exceptions.", LEDGER_NOTE, "3 C05"),
  "C06": ("exploration", "deterministic simulation: replayer client, Byzantine block with replayed tx, rollbacks; history check of the canonical chain of every replica",
          "Seeded exploration across 1-3 epochs; the canonical chain read back from each replica's store is checked for duplicate hashes, nonce sequence per (sender, epoch) and epoch match.", LEDGER_NOTE, "3 C06"),
+ "C07": ("exploration", "deterministic simulation: tape-drawn validator sets on replicas with different map seeds (incremental vs loaded view), real Engine.vote/countVotes on the virtual clock over a lossy/duplicating transport with a Byzantine voter; real ValidateBlockCert vs an independent reference predicate",
+         "Seeded exploration of validator sets, rounds/steps and vote multisets; thousands of rounds per minute.", "Committee membership is taken from the implementation's draw (checked by cross-replica equality); the engine loop and gossip are stubbed; validator sets are installed directly in the identity state.", "3 C07"),
  "C08": ("exploration", "deterministic simulation: partition/heal with two certified branches, Byzantine rewriting of certificates and bundles on the wire, real fork resolver; adoption judged by reference certificate predicate and post-adoption equality with the peer",
          "Seeded exploration of partitions; the converse (every valid heavier fork is adopted) is deliberately not demanded.", LEDGER_NOTE + " Downloader.SeekForkedBlocks is replaced by the harness moving BlocksRange bytes and fetching bodies.", "3 C08"),
  "C09": ("fault_enumeration", "deterministic simulation with crash injection: every storage unit of recorded operations is a crash point; restart + catch-up vs uncrashed twin",
@@ -28,6 +30,10 @@ CLAIMED = {
          "Seeded exploration of operation sequences on the component and of ledger histories for the in-run clauses.", LEDGER_NOTE, "3 C13"),
  "C10": ("exploration", "deterministic simulation: live validator view vs fresh Load() after every block on every replica, plus restart/rollback rebuilds; registry vs ledger scan",
          "Seeded exploration of identity-changing histories; comparison covers every public getter incl. committee draws and ordered pool members.", LEDGER_NOTE, "3 C10"),
+ "C14": ("exploration", "deterministic simulation: 5-8 tasks (clients, engine, sync toggler, queries) over one real TxPool + chain under a baton scheduler; every cooperative lock acquisition is a tape-decided scheduling point; candidate-list, retention and removal invariants; deadlock detection",
+         "Seeded search over interleavings at lock granularity with exact replay; the data-race clause of the property is NOT decided by this technique (stated in DESIGN 3 C14 L).", "tx keeper persistence off; push tracker loops of the pool not started; candidate lists are taken by the block-inserting task, as the engine does.", "3 C14"),
+ "C20": ("exploration", "deterministic simulation: peers as tasks announcing to the real PushPullManager/holder/tracker, tracker loop + gc as tasks on the virtual clock, go-cache on the virtual clock, responder with drawn latencies; pull-request history rules, bounded liveness after announcements stop, drain of internal sizes",
+         "Seeded search over announcement orders, timings and lock-level interleavings with exact replay; data-race clause not decided.", "Peers are simulated responders; the manager's channel-blocked loop is replaced by a pump that runs the same body.", "3 C20"),
 }
 NOT_YET = "not claimed yet: the check for this property is still being built in this session (see DESIGN.md section 3)"
 def main():
